@@ -47,15 +47,15 @@ def run(repo: Repo, chk: Check):
                       "(target,value), (0,operand), select(test,body,orelse), range(start,end,step)", floor=10)
     chk.rule("R01.i", "constant-list indexing: every select picks the element whose index the condition encodes", floor=3)
 
-    r01a(repo, chk)
-    r01b(repo, chk)
-    rule_alias_single_assignment(repo, chk, "R01.c")
-    r01d(repo, chk)
-    rule_loop_labels(repo, chk, "R01.e")
-    r01f(repo, chk)
-    r01g(repo, chk)
-    r01h(repo, chk)
-    r01i(repo, chk)
+    chk.guarded(r01a, repo, chk)
+    chk.guarded(r01b, repo, chk)
+    chk.guarded(rule_alias_single_assignment, repo, chk, "R01.c")
+    chk.guarded(r01d, repo, chk)
+    chk.guarded(rule_loop_labels, repo, chk, "R01.e")
+    chk.guarded(r01f, repo, chk)
+    chk.guarded(r01g, repo, chk)
+    chk.guarded(r01h, repo, chk)
+    chk.guarded(r01i, repo, chk)
 
 
 # ---------------------------------------------------------------------- R01.a
@@ -303,47 +303,70 @@ def _r01b_helper_arm(repo, chk, g, fn, fe, flags):
               {"wrong": bad}, f"{u.path}:{st.lineno} in try_replace_call_with_branch")
 
 
+def _mini_truth(e, v, n, flags, rd=None, nid=None, depth=0):
+    """Truth of a constant-arm test for (truth of the constant v, test negated n); None = not understood."""
+    if isinstance(e, ast.Call) and norm(e.func) == "bool" and len(e.args) == 1:
+        return v
+    if isinstance(e, ast.Name) and e.id in flags:
+        return n
+    if isinstance(e, ast.Name) and rd is not None and nid is not None and depth < 3:
+        ds = rd.at(nid, e.id)
+        if len(ds) == 1 and ds[0].kind == "assign" and ds[0].value is not None and not ds[0].index:
+            return _mini_truth(ds[0].value, v, n, flags, rd, ds[0].node, depth + 1)
+        return None
+    if isinstance(e, ast.Constant) and isinstance(e.value, bool):
+        return e.value
+    if isinstance(e, ast.UnaryOp) and isinstance(e.op, ast.Not):
+        x = _mini_truth(e.operand, v, n, flags, rd, nid, depth)
+        return None if x is None else not x
+    if isinstance(e, ast.Compare) and len(e.ops) == 1 and isinstance(e.ops[0], (ast.Eq, ast.NotEq, ast.Is, ast.IsNot)):
+        a, b = _mini_truth(e.left, v, n, flags, rd, nid, depth), _mini_truth(e.comparators[0], v, n, flags, rd, nid, depth)
+        if a is None or b is None:
+            return None
+        return (a == b) if isinstance(e.ops[0], (ast.Eq, ast.Is)) else (a != b)
+    if isinstance(e, ast.BoolOp):
+        xs = [_mini_truth(x, v, n, flags, rd, nid, depth) for x in e.values]
+        if any(x is None for x in xs):
+            return None
+        return all(xs) if isinstance(e.op, ast.And) else any(xs)
+    if isinstance(e, ast.Attribute) and e.attr in ("constant_value", "value"):
+        return v
+    return None
+
+
 def _r01b_constant_arms(repo, chk, g, fn, fe, flags):
     """Constant tests: evaluate the emit flags for (truth of the constant, negated)."""
-    arms = []
-    for node in ast.walk(fn):
-        if isinstance(node, ast.If) and enclosing_def(node) is fn:
-            t = node.test
-            if isinstance(t, ast.Compare) and len(t.ops) == 1 and isinstance(t.ops[0], (ast.NotEq, ast.Eq)):
-                l, r = t.left, t.comparators[0]
-                sides = [l, r]
-                boolside = [x for x in sides if isinstance(x, ast.Call) and norm(x.func) == "bool"]
-                flagside = [x for x in sides if isinstance(x, ast.Name) and x.id in flags]
-                if len(boolside) == 1 and len(flagside) == 1:
-                    arms.append((node, isinstance(t.ops[0], ast.NotEq)))
-    if not arms:
-        if flags:
-            raise AnalysisError("handle_if: constant-test arms (bool(<constant>) != <negation flag>) not found")
-        return
-    emit_names = set()
-    for node, _ in arms:
-        for st in ast.walk(node):
-            if isinstance(st, ast.Assign) and isinstance(st.value, ast.Constant) and isinstance(st.value.value, bool):
-                for t in st.targets:
-                    if isinstance(t, ast.Name):
-                        emit_names.add(t.id)
     # which flag guards the body loop / the orelse loop
     body_flag = orelse_flag = None
     for loop in ast.walk(fn):
         if isinstance(loop, ast.For) and enclosing_def(loop) is fn and isinstance(loop.iter, ast.Attribute):
             for iff in loop.body:
-                if isinstance(iff, ast.If) and isinstance(iff.test, ast.Name) and iff.test.id in emit_names:
+                if isinstance(iff, ast.If) and isinstance(iff.test, ast.Name):
                     if loop.iter.attr == "body":
                         body_flag = iff.test.id
                     elif loop.iter.attr == "orelse":
                         orelse_flag = iff.test.id
     if body_flag is None or orelse_flag is None:
         raise AnalysisError("handle_if: loops over node.body / node.orelse guarded by the emit flags not found")
-    for node, is_ne in arms:
+    emit = {body_flag, orelse_flag}
+    arms = []
+    for node in ast.walk(fn):
+        if isinstance(node, ast.If) and enclosing_def(node) is fn:
+            direct = [st for st in node.body + node.orelse if isinstance(st, ast.Assign) and len(st.targets) == 1 and isinstance(st.targets[0], ast.Name)
+                      and st.targets[0].id in emit and isinstance(st.value, ast.Constant)]
+            if direct:
+                arms.append(node)
+    if not arms:
+        raise AnalysisError("handle_if: constant-test arms (assignments to the emit flags) not found")
+    for node in arms:
         guard = norm(node.test)
+        where = f"{g.path}:{node.lineno} in {fn.qual}"
         for v in (False, True):
             for n in (False, True):
-                cond = (v != n) if is_ne else (v == n)
+                tid = fe.node_ids(node.test)
+                cond = _mini_truth(node.test, v, n, flags, fe.rd, tid[0] if tid else None)
+                if cond is None:
+                    raise AnalysisError(f"handle_if: constant-test arm '{guard}' is not understood")
                 branch = node.body if cond else node.orelse
                 state = {body_flag: True, orelse_flag: True}
                 for st in branch:
@@ -352,8 +375,6 @@ def _r01b_constant_arms(repo, chk, g, fn, fe, flags):
                 python_takes_body = v != n
                 executed = "body" if state[body_flag] else ("orelse" if state[orelse_flag] else "nothing")
                 exp = "body" if python_takes_body else "orelse"
-                ids = fe.node_ids(node.test)
-                where = f"{g.path}:{node.lineno} in {fn.qual}"
                 chk.judge("R01.b", f"generate_code:{fn.qual}:constant test [{guard}] value={v} negated={n}", executed == exp,
                           f"for a constant test that is {v}{' under not' if n else ''} the emitted code runs the {executed} arm, Python runs the {exp} arm",
                           {"flags": state}, where)
@@ -459,8 +480,17 @@ def r01f(repo, chk):
         if ops is TOP or not ops or not all(isinstance(v, str) and v in ("bge", "ble", "bgt", "blt") for v in ops):
             continue
         found += 1
-        # the direction flag: a Name in the opcode expression
-        names = [n.id for n in ast.walk(s.op_expr) if isinstance(n, ast.Name)]
+        # the direction flag: a Name in the (possibly locally named) opcode expression
+        opx = s.op_expr
+        ids0 = live_ids(cfg, s.call)
+        for _ in range(3):
+            if isinstance(opx, ast.Name) and ids0:
+                ds = rd.at(ids0[0], opx.id)
+                if len(ds) == 1 and ds[0].kind == "assign" and ds[0].value is not None and not ds[0].index:
+                    opx, ids0 = ds[0].value, [ds[0].node]
+                    continue
+            break
+        names = [n.id for n in ast.walk(opx.test if isinstance(opx, ast.IfExp) else opx) if isinstance(n, ast.Name)]
         key = f"generate_code:{qual}:{norm(s.call)[:80]}"
         if len(names) != 1:
             chk.bad("R01.f", key, f"exit test opcode {sorted(ops)} does not depend on one direction flag", None, s.where())
@@ -471,7 +501,7 @@ def r01f(repo, chk):
         chk.judge("R01.f", key, got_t is not TOP and set(got_t) == {"bge"} and got_f is not TOP and set(got_f) == {"ble"},
                   f"exit test is {got_t} for an increasing range and {got_f} for a decreasing one, expected bge / ble",
                   {"increasing": got_t, "decreasing": got_f}, s.where())
-        ids = live_ids(cfg, s.call)
+        ids = ids0
         defs = rd.at(ids[0], flag) if ids else []
         okdefs = True
         desc = []
